@@ -177,6 +177,10 @@ where
     }
 }
 
+/// How long the UDP relay loop waits for one application's connection to the server (opening it, or writing to
+/// it) before it gives that datagram up: the loop serves every local application, a stalled peer must not hold it.
+const OUTBOUND_TIMEOUT: Duration = Duration::from_secs(5);
+
 pub async fn transfer_udp<Context, NewContext, Key, NewKey, Out, NewOut, ToOutSend, ToInRecv, OutRecv, OutSend>(
     inbound: UdpSocket,
     config: ServerConfig<SslConfig>,
@@ -236,10 +240,10 @@ where
                 match client_server_cache.entry(key) {
                     Entry::Vacant(entry) => {
                         debug!("[udp] new binding; key={:?}", &_key);
-                        let binding = match new_out(&target, &context).await {
-                            Ok(out) => new_binding(server_addr, client_local_tx.clone(), ((content, target), sender), _key.clone(), out, to_inbound_recv, to_outbound_send).await,
-                            Err(e) => Err(e),
-                        };
+                        let binding = time::timeout(OUTBOUND_TIMEOUT, async {
+                            let out = new_out(&target, &context).await?;
+                            new_binding(server_addr, client_local_tx.clone(), ((content, target), sender), _key.clone(), out, to_inbound_recv, to_outbound_send).await
+                        }).await.unwrap_or_else(|_| Err(anyhow!("timed out")));
                         match binding {
                             Ok((sink, relay_task)) => {
                                 entry.insert(Binding {sink, relay_task});
@@ -252,10 +256,10 @@ where
                         let value = entry.into_mut();
                         if value.relay_task.is_finished() {
                             debug!("[udp] retry binding; key={:?}", &_key);
-                            let binding = match new_out(&target, &context).await {
-                                Ok(out) => new_binding(server_addr, client_local_tx.clone(), ((content, target), sender), _key.clone(), out, to_inbound_recv, to_outbound_send).await,
-                                Err(e) => Err(e),
-                            };
+                            let binding = time::timeout(OUTBOUND_TIMEOUT, async {
+                                let out = new_out(&target, &context).await?;
+                                new_binding(server_addr, client_local_tx.clone(), ((content, target), sender), _key.clone(), out, to_inbound_recv, to_outbound_send).await
+                            }).await.unwrap_or_else(|_| Err(anyhow!("timed out")));
                             match binding {
                                 Ok((sink, relay_task)) => {
                                     value.sink = sink;
@@ -266,7 +270,7 @@ where
                                     failed = true;
                                 }
                             }
-                        } else if let Err(e) = value.sink.send(to_outbound_send((content, target), server_addr)).await {
+                        } else if let Err(e) = time::timeout(OUTBOUND_TIMEOUT, value.sink.send(to_outbound_send((content, target), server_addr))).await.unwrap_or_else(|_| Err(anyhow!("timed out"))) {
                             error!("[udp] send to server failed; key={:?}, error={}", &_key, e);
                             failed = true;
                         }
